@@ -65,6 +65,11 @@ __tok_spec(const char *fp, const char **ep)
 next:
 	switch (*++fp) {
 	default:
+		if (*fp == '\0') {
+			/* format ends in a lone % (and modifiers), make sure
+			 * the caller resumes on the terminator, not behind it */
+			fp--;
+		}
 		goto out;
 	case 'F':
 		res.spfl = DT_SPFL_N_DSTD;
